@@ -247,6 +247,47 @@ func vMutate(r *vRand, b []byte) ([]byte, string) {
 	}
 }
 
+// vBadTail: bytes which, appended to a complete valid envelope, make the whole frame
+// undecodable although its prefix decodes to a complete request / response. A decoder
+// that fills its result as it goes must not let such a frame have any effect.
+func vBadTail(r *vRand) ([]byte, string) {
+	switch r.Intn(12) {
+	case 0:
+		return []byte{0x80}, "trunc-tag"
+	case 1:
+		return [][]byte{{0x0f}, {0x26}, {0x17, 0x00}}[r.Intn(3)], "bad-wiretype"
+	case 2:
+		return [][]byte{{0x00, 0x00}, {0x02, 0x00}, {0x05, 0, 0, 0, 0}}[r.Intn(3)], "field-zero"
+	case 3:
+		return [][]byte{{0x20, 0x80}, {0x20, 0xff, 0xff, 0x80}, {0x08, 0x80, 0x80, 0x80, 0x80}}[r.Intn(3)], "unterminated-varint"
+	case 4:
+		return []byte{0x20, 0xff, 0xff, 0xff, 0xff, 0xff, 0xff, 0xff, 0xff, 0xff, 0xff, 0x01}, "overlong-varint"
+	case 5:
+		return [][]byte{{0x1a, 0x05, 0x0a}, {0x12, 0x05, 0x0a}, {0x2a, 0x7f}, {0x1a, 0x80}}[r.Intn(4)], "trunc-len"
+	case 6:
+		return [][]byte{{0x25, 0x01, 0x02}, {0x21, 1, 2, 3, 4, 5, 6, 7}}[r.Intn(2)], "trunc-fixed"
+	case 7:
+		return [][]byte{{0x24}, {0x23}, {0x23, 0x2c}}[r.Intn(3)], "bad-group"
+	case 8, 9:
+		// one more occurrence of an exchange field whose string field is not UTF-8
+		bad := [][]byte{{0xff}, {0xc0, 0x80}, {0xed, 0xa0, 0x80}, {0xe2, 0x82}}[r.Intn(4)]
+		num := protowire.Number(2 + r.Intn(2))
+		fld := protowire.Number(1 + r.Intn(2))
+		if num == 3 && fld == 2 {
+			fld = 3 // response: call id 1, error 3 are the strings
+		}
+		in := protowire.AppendBytes(protowire.AppendTag(nil, fld, protowire.BytesType), bad)
+		return protowire.AppendBytes(protowire.AppendTag(nil, num, protowire.BytesType), in), "bad-utf8"
+	case 10:
+		// a truncated copy of an exchange field
+		in := protowire.AppendBytes(protowire.AppendTag(nil, 1, protowire.BytesType), []byte("Echo"))
+		b := protowire.AppendBytes(protowire.AppendTag(nil, protowire.Number(2+r.Intn(2)), protowire.BytesType), in)
+		return b[:len(b)-1-r.Intn(3)], "trunc-exchange"
+	default:
+		return r.Bytes(1 + r.Intn(3)), "random-tail" // mostly malformed, sometimes an unknown field
+	}
+}
+
 func TestVerifC16(t *testing.T) {
 	r := vNewRand(vSeed())
 	nStruct, nMal := 700, 1500
@@ -304,11 +345,19 @@ func TestVerifC16(t *testing.T) {
 	}
 	vEmitDec("dec-empty", nil)
 	for i := 0; i < nMal; i++ {
-		switch r.Intn(10) {
+		switch r.Intn(12) {
 		case 0, 1, 2, 3:
 			vEmitDec("dec-foreign", vForeignFrame(r))
 		case 4:
 			vEmitDec("dec-random", r.Bytes(r.Intn(24)))
+		case 10, 11:
+			// a complete valid envelope followed by bytes which make the whole frame malformed
+			if len(seeds) == 0 {
+				continue
+			}
+			tail, kind := vBadTail(r)
+			b := seeds[r.Intn(len(seeds))]
+			vEmitDec("dec-prefix-valid-"+kind, append(append([]byte(nil), b...), tail...))
 		default:
 			var b []byte
 			if len(seeds) > 0 && r.Intn(3) > 0 {
